@@ -8,6 +8,7 @@ class C10(Check):
     id = 'C10'
     module = 'Xrl.Props.C10'
     namespace = 'Xrl.C10'
+    extra_modules = [('Xrl.Props.C10b', 'Xrl.C10')]
     functions = ['LineEnergy', 'LineEnergyComposed', 'RadRate']
     assumptions = ['L-beta energy (cross-section weighted mean) is specified through C09; here no claim (Expect.any) — covered by correspondence only',
                    'group_energy_between assumes non-negative rates (data invariant, holds for the shipped tables: checked by the search)']
@@ -82,7 +83,9 @@ class C10(Check):
                     pw = w['CS_FluorLine %d %d %s N' % (Z, m, hx(edge[(Z, shell_of[m])] + 0.1))]
                     if pw['kind'] != 'ok': ok_ = False; break
                     wt = pw['vals'][0]
-                    den += wt; num += val.get(('LineEnergy', Z, m), 0.0) * wt
+                    em = val.get(('LineEnergy', Z, m), 0.0)
+                    if em <= 0: continue                      # a member without a line energy does not enter the mean
+                    den += wt; num += em * wt
                 if not ok_: continue
                 nlb += 1
                 co = c[cl.index('LineEnergy %d 3 E' % Z)]
@@ -93,6 +96,16 @@ class C10(Check):
         else:
             viol.append(dict(key='include/xraylib-lines.h', got=str(sorted(set(memb) - set(shell_of))), expected='every L-beta member alias resolves to an L-line macro', what='L-beta member list'))
         stats['lbeta_elements_checked'] = nlb
+        # the executable specification of Props/C10b.lean (Spec.LineEnergyLB) against the library
+        try:
+            zl = list(range(-3, 126))
+            eo = ctx.run_model(['spec.LineEnergyLB %d' % Z for Z in zl])
+            for Z, e_ in zip(zl, eo):
+                co = c[cl.index('LineEnergy %d 3 E' % Z)]
+                if not core.expect_agrees(co, e_, rel=1e-12, stats=stats):
+                    viol.append(dict(key='LineEnergy %d 3 E' % Z, got=co, expected=e_, what='L-beta energy: library vs Spec.LineEnergyLB'))
+        except core.BuildError:
+            pass
         stats.update(rule='exhaustive: Z in [-3,125] x every macro value in [-390,7] (all 383 lines, the 4 Siegbahn groups, 7 doublets, KO/KP, aliases share values) for LineEnergy and RadRate; '
                           'non-trivial = calls where a value is expected', distinct_nontrivial=len(nontriv), group_values=ngroup, exhaustive=True,
                      samples=[dict(call=cl[i], impl=c[i], expected=e[i]) for i in (0, len(cl) // 2 + 7, len(cl) - 1)])
